@@ -210,8 +210,20 @@ def pred_sub_uninit(spec: dict) -> bool:
     return bool(us) and all(it["sub"] for it in us)
 
 
+REFUSE = 0  # does the tree carry the second guard (tensors stored in the destination data file are refused)?  set by main()
+
+
+def pred_dest_path(spec: dict) -> bool:
+    """Some initializer is an ExternalTensor whose file is the destination data file (existing or not)."""
+    data_rel = L.join(spec.get("dir", ""), spec["name"]) + ".data"
+    return any(it["kind"] == "E" and it["file"] == data_rel for it in spec["inits"])
+
+
 def well_formed(spec: dict) -> bool:
-    """No uninitialized initializer, every external tensor valid and inside an existing file."""
+    """No uninitialized initializer, every external tensor valid and inside an existing file (and, when the tree has the
+    second guard, none stored in the destination data file: such a model is refused by contract)."""
+    if REFUSE and pred_dest_path(spec):
+        return False
     flen = {f: n for f, _s, n in spec.get("files", [])}
     for it in spec["inits"]:
         if it["kind"] == "U":
@@ -236,6 +248,10 @@ def oracle(spec: dict, k, r: dict) -> list[tuple[str, str]]:
         if r["res"] != "ValueError" or r["calls"] != 0 or a["files"] != b["files"]:
             out.append(("guard", f"uninitialized initializer present but res={r['res']} fs_calls={r['calls']} "
                         f"files_changed={a['files'] != b['files']}"))
+    elif REFUSE and pred_dest_path(spec):
+        if r["res"] != "ValueError" or r["calls"] != 0 or a["files"] != b["files"]:
+            out.append(("guard", f"an initializer is stored in the destination data file but res={r['res']} "
+                        f"fs_calls={r['calls']} files_changed={a['files'] != b['files']}"))
     if a["ids"] != b["ids"]:
         out.append(("unchanged", "const_value identities differ after the call"))
     if a["heap"] != b["heap"]:
@@ -290,7 +306,25 @@ def detect_deep() -> int:
     return 1 if (r["res"] == "ValueError" and r["calls"] == 0) else 0
 
 
-def check_spec(drv, spec: dict, deep: int, stats: Counter, ks=None):
+def detect_refuse() -> int:
+    """Does the real function refuse a model with an initializer stored in the destination data file? (C20-D1 fix)"""
+    spec = {"name": "m.onnx", "dir": "", "style": "abs", "verbose": 0, "files": [["m.onnx.data", 9, 300]],
+            "inits": [{"name": "d", "sub": 0, "kind": "E", "file": "m.onnx.data", "off": 0, "len": 300, "valid": 1,
+                       "dtype": "UINT8", "shape": [300]}]}
+    r = L.run_real(spec, None)
+    return 1 if (r["res"] == "ValueError" and r["calls"] == 0) else 0
+
+
+def detect_keepnames() -> int:
+    """Does the real function put the tensors' names back? (C20-D4 fix)"""
+    spec = {"name": "m.onnx", "dir": "", "style": "abs", "verbose": 0, "files": [],
+            "inits": [{"name": "s", "sub": 0, "kind": "M", "seed": 4, "len": 16, "np": 1, "dtype": "UINT8", "shape": [16],
+                       "tname_differs": 1}]}
+    r = L.run_real(spec, None)
+    return 1 if (r["res"] == "ok" and r["line"].endswith("tn=tn_s")) else 0
+
+
+def check_spec(drv, spec: dict, deep, stats: Counter, ks=None):
     """Returns (tie_problems, property_problems); each item (spec, k, detail[, clause])."""
     r0 = L.run_real(spec, None)
     n = r0["calls"]
@@ -347,7 +381,7 @@ def check_spec(drv, spec: dict, deep: int, stats: Counter, ks=None):
         if it["sub"]:
             stats["init_in_subgraph"] += 1
             stats[f"init_level_{it['sub']}"] += 1
-        for fl in ("is_input", "used", "is_output", "lazy"):
+        for fl in ("is_input", "used", "is_output", "lazy", "tname_differs"):
             if it.get(fl):
                 stats[f"init_{fl}"] += 1
                 stats[f"init_{it['kind']}_{fl}"] += 1
@@ -377,8 +411,15 @@ def main(run: core.Run) -> None:
     drv = core.Driver("C20")
     stats: Counter = Counter()
     # the guard walks every graph (fix 1c518f5); only while C20-D2 is listed as *open* is the old scope probed
+    global REFUSE
     deep = detect_deep() if any(f["id"] == "C20-D2" for f in run.open_findings()) else 1
     run.coverage["guard_walks_subgraphs"] = bool(deep)
+    # second guard (C20-D1 fix): probed while C20-D1 is listed open, pinned to "present" once it is listed fixed
+    REFUSE = detect_refuse() if any(f["id"] == "C20-D1" for f in run.open_findings()) else 1
+    run.coverage["guard_refuses_tensors_in_destination"] = bool(REFUSE)
+    keep = detect_keepnames() if any(f["id"] == "C20-D4" for f in run.open_findings()) else 1
+    run.coverage["restores_tensor_names"] = bool(keep)
+    deep = f"{deep}{REFUSE}{keep}"  # the model's Cfg as the driver reads it
 
     if run.replay_path:
         body = json.loads(open(run.replay_path).read())
@@ -522,7 +563,7 @@ def main(run: core.Run) -> None:
         explanation="per case every fault point k in 0..N (N = file-system calls of the fault-free run) plus the fault-free run is "
         "executed on the real code and the model; the cases themselves are corpus + seeded random",
     )
-    need = ["specs_same_name_in_two_graphs", "specs_same_name_one_uninitialized", "init_level_4", "init_A_of_M", "init_A_of_E", "init_U_is_input", "init_U_used", "init_U_is_output", "init_M_is_input", "init_E_is_input", "init_level_1",
+    need = ["init_tname_differs", "specs_same_name_in_two_graphs", "specs_same_name_one_uninitialized", "init_level_4", "init_A_of_M", "init_A_of_E", "init_U_is_input", "init_U_used", "init_U_is_output", "init_M_is_input", "init_E_is_input", "init_level_1",
             "init_level_2", "init_level_3", "init_lazy", "init_U_meta_none", "init_U_sub",
             "init_M_np_mid", "init_M_raw_mid", "init_E_other_mid", "init_E_dest_mid", "init_E_dest_small", "init_U_main",
             "init_zero_size", "init_scalar", "init_M_np_big", "verbose_1", "verbose_2", "style_rel", "dir_sub"]
